@@ -1,4 +1,5 @@
 import Driver.C20
+import Driver.C04
 import Driver.C05
 import Driver.C18
 import Driver.C17
@@ -30,6 +31,7 @@ structure St where
 def step (st : St) (line : String) : St × String :=
   match (line.trimAscii.toString.splitOn " ").filter (· ≠ "") with
   | "c20" :: rest => (st, C20.handle rest)
+  | "c04" :: rest => (st, C04.handle rest)
   | "c05" :: rest => (st, C05.handleAll rest)
   | "c06" :: rest => (st, C05.handle06 rest)
   | "c18" :: rest => (st, C18.handle rest)
